@@ -514,14 +514,15 @@ impl DirTourist {
 
 		filter
 			.add_globs(
+				// unanchored: VCS metadata directories are not entered at any depth (nested repositories)
 				&[
-					"/.git",
-					"/.hg",
-					"/.bzr",
-					"/_darcs",
-					"/.fossil-settings",
-					"/.svn",
-					"/.pijul",
+					".git",
+					".hg",
+					".bzr",
+					"_darcs",
+					".fossil-settings",
+					".svn",
+					".pijul",
 				],
 				Some(&base),
 			)
